@@ -4,6 +4,9 @@ GENERATED FILE -- DO NOT EDIT.  Written by tools/rust2lean_sm.py from the Rust s
 the pinned tree.  State machines: a `&mut self` method is a pure function returning the new state and the
 result; the meaning of the scalar vocabulary is fixed in the prelude below.  The agreement with the
 hand-written models is proved in Lemmas/KernelsAgree/{Sequencer,Drawdown,PositionSM,Connectivity}.lean.
+Every definition carries the simp attribute `gen_<group>` of the group(s) it was generated for (registered in
+Generated/Attr.lean), auxiliary items found by lookup included, so that `simp only [gen_<group>]` unfolds
+everything generated for a group whatever the helper functions of the source are called.
 
 Source items (file :: item, line, hash of the item's source text):
   barter-data/src/error.rs :: enum DataError  (line 9)  sha256[:16]=beea71dc43c7ca86
@@ -66,6 +69,8 @@ Source items (file :: item, line, hash of the item's source text):
   barter/src/engine/state/connectivity/mod.rs :: struct ConnectivityState  (line 171)  sha256[:16]=b2d75bbb2728b71f
   barter/src/engine/state/connectivity/mod.rs :: impl ConnectivityState :: fn all_healthy  (line 181)  sha256[:16]=060a333c7dcc7b07
 -/
+import BarterModel.Generated.Attr
+set_option linter.unusedVariables false   -- e.g. the `Ok(x)` binder of a `?` whose value is discarded
 namespace BarterModel.Generated.Machines
 
 /-! ## Fixed prelude: the meaning given to the Rust vocabulary of the accepted subset
@@ -99,6 +104,16 @@ def Decimal.MAX : Rat := 79228162514264337593543950335
 /-- `Decimal::MIN` = -(2^96 - 1). -/
 def Decimal.MIN : Rat := -79228162514264337593543950335
 
+/-- `std::cmp::Ordering` (`a.cmp(&b)` on `Decimal` is `Decimal.cmp`, below). -/
+inductive Ordering where
+  | Less
+  | Equal
+  | Greater
+  deriving DecidableEq, Repr
+
+/-- `Ord::cmp` of `Decimal` (a total order; rust_decimal compares values, not representations). -/
+def Decimal.cmp (x y : Rat) : Ordering := if x < y then Ordering.Less else if x = y then Ordering.Equal else Ordering.Greater
+
 /-! ## barter-data/src/error.rs -/
 
 -- restricted to the variant(s) InvalidSequence; not translated (constructing or matching them is rejected): Index, SubscriptionsEmpty, UnsupportedSubKind, InitialSnapshotMissing, InitialSnapshotInvalid, Socket, Unsupported
@@ -124,15 +139,15 @@ structure BinanceSpotOrderBookL2Sequencer where
   deriving DecidableEq, Repr
 
 /-- generated from `impl BinanceSpotOrderBookL2Sequencer :: fn new` (barter-data/src/exchange/binance/spot/l2.rs:194) -/
-def BinanceSpotOrderBookL2Sequencer.new (last_update_id : Nat) : BinanceSpotOrderBookL2Sequencer :=
+@[gen_sequencer] def BinanceSpotOrderBookL2Sequencer.new (last_update_id : Nat) : BinanceSpotOrderBookL2Sequencer :=
   { updates_processed := 0, last_update_id := last_update_id, prev_last_update_id := last_update_id : BinanceSpotOrderBookL2Sequencer }
 
 /-- generated from `impl BinanceSpotOrderBookL2Sequencer :: fn is_first_update` (barter-data/src/exchange/binance/spot/l2.rs:234) -/
-def BinanceSpotOrderBookL2Sequencer.is_first_update (self : BinanceSpotOrderBookL2Sequencer) : Bool :=
+@[gen_sequencer] def BinanceSpotOrderBookL2Sequencer.is_first_update (self : BinanceSpotOrderBookL2Sequencer) : Bool :=
   (decide (self.updates_processed = 0))
 
 /-- generated from `impl BinanceSpotOrderBookL2Sequencer :: fn validate_first_update` (barter-data/src/exchange/binance/spot/l2.rs:242) -/
-def BinanceSpotOrderBookL2Sequencer.validate_first_update (self : BinanceSpotOrderBookL2Sequencer) (update : BinanceSpotOrderBookL2Update) : Except DataError Unit :=
+@[gen_sequencer] def BinanceSpotOrderBookL2Sequencer.validate_first_update (self : BinanceSpotOrderBookL2Sequencer) (update : BinanceSpotOrderBookL2Update) : Except DataError Unit :=
   let expected_next_id : Nat := (self.last_update_id + 1)
   (if ((update.first_update_id ≤ expected_next_id) ∧ (update.last_update_id ≥ expected_next_id)) then
     (Except.ok ())
@@ -140,7 +155,7 @@ def BinanceSpotOrderBookL2Sequencer.validate_first_update (self : BinanceSpotOrd
     (Except.error (DataError.InvalidSequence self.last_update_id update.first_update_id)))
 
 /-- generated from `impl BinanceSpotOrderBookL2Sequencer :: fn validate_next_update` (barter-data/src/exchange/binance/spot/l2.rs:262) -/
-def BinanceSpotOrderBookL2Sequencer.validate_next_update (self : BinanceSpotOrderBookL2Sequencer) (update : BinanceSpotOrderBookL2Update) : Except DataError Unit :=
+@[gen_sequencer] def BinanceSpotOrderBookL2Sequencer.validate_next_update (self : BinanceSpotOrderBookL2Sequencer) (update : BinanceSpotOrderBookL2Update) : Except DataError Unit :=
   let expected_next_id : Nat := (self.last_update_id + 1)
   (if (update.first_update_id = expected_next_id) then
     (Except.ok ())
@@ -148,7 +163,7 @@ def BinanceSpotOrderBookL2Sequencer.validate_next_update (self : BinanceSpotOrde
     (Except.error (DataError.InvalidSequence self.last_update_id update.first_update_id)))
 
 /-- generated from `impl BinanceSpotOrderBookL2Sequencer :: fn validate_sequence` (barter-data/src/exchange/binance/spot/l2.rs:205) -/
-def BinanceSpotOrderBookL2Sequencer.validate_sequence (self : BinanceSpotOrderBookL2Sequencer) (update : BinanceSpotOrderBookL2Update) : BinanceSpotOrderBookL2Sequencer × Except DataError (Option BinanceSpotOrderBookL2Update) :=
+@[gen_sequencer] def BinanceSpotOrderBookL2Sequencer.validate_sequence (self : BinanceSpotOrderBookL2Sequencer) (update : BinanceSpotOrderBookL2Update) : BinanceSpotOrderBookL2Sequencer × Except DataError (Option BinanceSpotOrderBookL2Update) :=
   (if (update.last_update_id ≤ self.last_update_id) then
     (self, (Except.ok none))
   else
@@ -186,29 +201,29 @@ structure BinanceFuturesUsdOrderBookL2Sequencer where
   deriving DecidableEq, Repr
 
 /-- generated from `impl BinanceFuturesUsdOrderBookL2Sequencer :: fn new` (barter-data/src/exchange/binance/futures/l2.rs:202) -/
-def BinanceFuturesUsdOrderBookL2Sequencer.new (last_update_id : Nat) : BinanceFuturesUsdOrderBookL2Sequencer :=
+@[gen_sequencer] def BinanceFuturesUsdOrderBookL2Sequencer.new (last_update_id : Nat) : BinanceFuturesUsdOrderBookL2Sequencer :=
   { updates_processed := 0, last_update_id := last_update_id : BinanceFuturesUsdOrderBookL2Sequencer }
 
 /-- generated from `impl BinanceFuturesUsdOrderBookL2Sequencer :: fn is_first_update` (barter-data/src/exchange/binance/futures/l2.rs:240) -/
-def BinanceFuturesUsdOrderBookL2Sequencer.is_first_update (self : BinanceFuturesUsdOrderBookL2Sequencer) : Bool :=
+@[gen_sequencer] def BinanceFuturesUsdOrderBookL2Sequencer.is_first_update (self : BinanceFuturesUsdOrderBookL2Sequencer) : Bool :=
   (decide (self.updates_processed = 0))
 
 /-- generated from `impl BinanceFuturesUsdOrderBookL2Sequencer :: fn validate_first_update` (barter-data/src/exchange/binance/futures/l2.rs:248) -/
-def BinanceFuturesUsdOrderBookL2Sequencer.validate_first_update (self : BinanceFuturesUsdOrderBookL2Sequencer) (update : BinanceFuturesOrderBookL2Update) : Except DataError Unit :=
+@[gen_sequencer] def BinanceFuturesUsdOrderBookL2Sequencer.validate_first_update (self : BinanceFuturesUsdOrderBookL2Sequencer) (update : BinanceFuturesOrderBookL2Update) : Except DataError Unit :=
   (if ((update.first_update_id ≤ self.last_update_id) ∧ (update.last_update_id ≥ self.last_update_id)) then
     (Except.ok ())
   else
     (Except.error (DataError.InvalidSequence self.last_update_id update.first_update_id)))
 
 /-- generated from `impl BinanceFuturesUsdOrderBookL2Sequencer :: fn validate_next_update` (barter-data/src/exchange/binance/futures/l2.rs:269) -/
-def BinanceFuturesUsdOrderBookL2Sequencer.validate_next_update (self : BinanceFuturesUsdOrderBookL2Sequencer) (update : BinanceFuturesOrderBookL2Update) : Except DataError Unit :=
+@[gen_sequencer] def BinanceFuturesUsdOrderBookL2Sequencer.validate_next_update (self : BinanceFuturesUsdOrderBookL2Sequencer) (update : BinanceFuturesOrderBookL2Update) : Except DataError Unit :=
   (if (update.prev_last_update_id = self.last_update_id) then
     (Except.ok ())
   else
     (Except.error (DataError.InvalidSequence self.last_update_id update.first_update_id)))
 
 /-- generated from `impl BinanceFuturesUsdOrderBookL2Sequencer :: fn validate_sequence` (barter-data/src/exchange/binance/futures/l2.rs:212) -/
-def BinanceFuturesUsdOrderBookL2Sequencer.validate_sequence (self : BinanceFuturesUsdOrderBookL2Sequencer) (update : BinanceFuturesOrderBookL2Update) : BinanceFuturesUsdOrderBookL2Sequencer × Except DataError (Option BinanceFuturesOrderBookL2Update) :=
+@[gen_sequencer] def BinanceFuturesUsdOrderBookL2Sequencer.validate_sequence (self : BinanceFuturesUsdOrderBookL2Sequencer) (update : BinanceFuturesOrderBookL2Update) : BinanceFuturesUsdOrderBookL2Sequencer × Except DataError (Option BinanceFuturesOrderBookL2Update) :=
   (if (update.last_update_id < self.last_update_id) then
     (self, (Except.ok none))
   else
@@ -245,7 +260,7 @@ structure Drawdown where
   deriving DecidableEq, Repr
 
 /-- generated from `impl Drawdown :: fn duration` (barter/src/statistic/metric/drawdown/mod.rs:29) -/
-def Drawdown.duration (self : Drawdown) : Int :=
+@[gen_drawdown] def Drawdown.duration (self : Drawdown) : Int :=
   (self.time_end - self.time_start)
 
 /-- generated from `struct DrawdownGenerator` (barter/src/statistic/metric/drawdown/mod.rs:38) -/
@@ -257,18 +272,18 @@ structure DrawdownGenerator where
   deriving DecidableEq, Repr
 
 /-- generated from `impl DrawdownGenerator :: fn init` (barter/src/statistic/metric/drawdown/mod.rs:47) -/
-def DrawdownGenerator.init (point : Timed Rat) : DrawdownGenerator :=
+@[gen_drawdown] def DrawdownGenerator.init (point : Timed Rat) : DrawdownGenerator :=
   { peak := (some point.value), drawdown_max := 0, time_peak := (some point.time), time_now := point.time : DrawdownGenerator }
 
 /-- generated from `impl DrawdownGenerator :: fn generate` (barter/src/statistic/metric/drawdown/mod.rs:97) -/
-def DrawdownGenerator.generate (self : DrawdownGenerator) : DrawdownGenerator × Option Drawdown :=
+@[gen_drawdown] def DrawdownGenerator.generate (self : DrawdownGenerator) : DrawdownGenerator × Option Drawdown :=
   (match self.time_peak with
   | none => (self, none)
   | some time_peak =>
     (self, (if (self.drawdown_max ≠ 0) then some ({ value := self.drawdown_max, time_start := time_peak, time_end := self.time_now : Drawdown }) else none)))
 
 /-- generated from `impl DrawdownGenerator :: fn update` (barter/src/statistic/metric/drawdown/mod.rs:60) -/
-def DrawdownGenerator.update (self : DrawdownGenerator) (point : Timed Rat) : DrawdownGenerator × Option Drawdown :=
+@[gen_drawdown] def DrawdownGenerator.update (self : DrawdownGenerator) (point : Timed Rat) : DrawdownGenerator × Option Drawdown :=
   let self : DrawdownGenerator := { self with time_now := point.time }
   (match self.peak with
   | none =>
@@ -309,11 +324,11 @@ structure MaxDrawdownGenerator where
   deriving DecidableEq, Repr
 
 /-- generated from `impl MaxDrawdownGenerator :: fn init` (barter/src/statistic/metric/drawdown/max.rs:23) -/
-def MaxDrawdownGenerator.init (drawdown : Drawdown) : MaxDrawdownGenerator :=
+@[gen_drawdown] def MaxDrawdownGenerator.init (drawdown : Drawdown) : MaxDrawdownGenerator :=
   { max := (some (MaxDrawdown.mk drawdown)) : MaxDrawdownGenerator }
 
 /-- generated from `impl MaxDrawdownGenerator :: fn update` (barter/src/statistic/metric/drawdown/max.rs:31) -/
-def MaxDrawdownGenerator.update (self : MaxDrawdownGenerator) (next_drawdown : Drawdown) : MaxDrawdownGenerator :=
+@[gen_drawdown] def MaxDrawdownGenerator.update (self : MaxDrawdownGenerator) (next_drawdown : Drawdown) : MaxDrawdownGenerator :=
   let taken_1 : Option MaxDrawdown := self.max
   let self : MaxDrawdownGenerator := { self with max := none }
   let max : MaxDrawdown := (match taken_1 with
@@ -328,7 +343,7 @@ def MaxDrawdownGenerator.update (self : MaxDrawdownGenerator) (next_drawdown : D
   self
 
 /-- generated from `impl MaxDrawdownGenerator :: fn generate` (barter/src/statistic/metric/drawdown/max.rs:47) -/
-def MaxDrawdownGenerator.generate (self : MaxDrawdownGenerator) : Option MaxDrawdown :=
+@[gen_drawdown] def MaxDrawdownGenerator.generate (self : MaxDrawdownGenerator) : Option MaxDrawdown :=
   self.max
 
 /-! ## barter/src/statistic/algorithm.rs -/
@@ -350,21 +365,21 @@ structure MeanDrawdownGenerator where
   deriving DecidableEq, Repr
 
 /-- generated from `impl MeanDrawdownGenerator :: fn init` (barter/src/statistic/metric/drawdown/mean.rs:23) -/
-def MeanDrawdownGenerator.init (drawdown : Drawdown) : MeanDrawdownGenerator :=
+@[gen_drawdown] def MeanDrawdownGenerator.init (drawdown : Drawdown) : MeanDrawdownGenerator :=
   { count := 1, mean_drawdown := (some ({ mean_drawdown := drawdown.value, mean_drawdown_ms := (Drawdown.duration drawdown) : MeanDrawdown })) : MeanDrawdownGenerator }
 
 /-- instance of the generic `welford_online.calculate_mean` at `Decimal` -/
-def welford_online.calculate_mean_Decimal (prev_mean : Rat) (next_value : Rat) (count : Rat) : Rat :=
+@[gen_drawdown] def welford_online.calculate_mean_Decimal (prev_mean : Rat) (next_value : Rat) (count : Rat) : Rat :=
   let prev_mean : Rat := (prev_mean + ((next_value - prev_mean) / count))
   prev_mean
 
 /-- instance of the generic `welford_online.calculate_mean` at `i64` -/
-def welford_online.calculate_mean_i64 (prev_mean : Int) (next_value : Int) (count : Int) : Int :=
+@[gen_drawdown] def welford_online.calculate_mean_i64 (prev_mean : Int) (next_value : Int) (count : Int) : Int :=
   let prev_mean : Int := (prev_mean + (Int.tdiv (next_value - prev_mean) count))
   prev_mean
 
 /-- generated from `impl MeanDrawdownGenerator :: fn update` (barter/src/statistic/metric/drawdown/mean.rs:34) -/
-def MeanDrawdownGenerator.update (self : MeanDrawdownGenerator) (next_drawdown : Drawdown) : MeanDrawdownGenerator :=
+@[gen_drawdown] def MeanDrawdownGenerator.update (self : MeanDrawdownGenerator) (next_drawdown : Drawdown) : MeanDrawdownGenerator :=
   let self : MeanDrawdownGenerator := { self with count := (self.count + 1) }
   let taken_1 : Option MeanDrawdown := self.mean_drawdown
   let self : MeanDrawdownGenerator := { self with mean_drawdown := none }
@@ -377,7 +392,7 @@ def MeanDrawdownGenerator.update (self : MeanDrawdownGenerator) (next_drawdown :
   self
 
 /-- generated from `impl MeanDrawdownGenerator :: fn generate` (barter/src/statistic/metric/drawdown/mean.rs:63) -/
-def MeanDrawdownGenerator.generate (self : MeanDrawdownGenerator) : Option MeanDrawdown :=
+@[gen_drawdown] def MeanDrawdownGenerator.generate (self : MeanDrawdownGenerator) : Option MeanDrawdown :=
   self.mean_drawdown
 
 /-! ## barter-instrument/src/lib.rs -/
@@ -420,7 +435,7 @@ structure AssetFees (AssetKey : Type) where
   deriving DecidableEq, Repr
 
 /-- generated from `impl Default for AssetFees<QuoteAsset> :: fn default` (barter-execution/src/trade.rs:72) -/
-def AssetFees.default  : AssetFees QuoteAsset :=
+@[gen_position_sm] def AssetFees.default  : AssetFees QuoteAsset :=
   { asset := QuoteAsset.mk, fees := 0 : AssetFees QuoteAsset }
 
 /-- generated from `struct Trade` (barter-execution/src/trade.rs:22) -/
@@ -439,7 +454,7 @@ structure Trade (AssetKey : Type) (InstrumentKey : Type) where
 /-! ## barter/src/engine/state/position.rs -/
 
 /-- generated from `fn calculate_price_entry_average` (barter/src/engine/state/position.rs:474) -/
-def calculate_price_entry_average (current_price_entry_average : Rat) (current_quantity_abs : Rat) (trade_price : Rat) (trade_quantity_abs : Rat) : Rat :=
+@[gen_position_sm] def calculate_price_entry_average (current_price_entry_average : Rat) (current_quantity_abs : Rat) (trade_price : Rat) (trade_quantity_abs : Rat) : Rat :=
   (if ((current_quantity_abs = 0) ∧ (trade_quantity_abs = 0)) then
     0
   else
@@ -448,11 +463,11 @@ def calculate_price_entry_average (current_price_entry_average : Rat) (current_q
     ((current_value + trade_value) / (current_quantity_abs + trade_quantity_abs)))
 
 /-- generated from `fn approximate_remaining_exit_fees` (barter/src/engine/state/position.rs:517) -/
-def approximate_remaining_exit_fees (quantity_abs : Rat) (quantity_abs_max : Rat) (fees_enter : Rat) : Rat :=
+@[gen_position_sm] def approximate_remaining_exit_fees (quantity_abs : Rat) (quantity_abs_max : Rat) (fees_enter : Rat) : Rat :=
   ((quantity_abs / quantity_abs_max) * fees_enter)
 
 /-- generated from `fn calculate_pnl_unrealised` (barter/src/engine/state/position.rs:492) -/
-def calculate_pnl_unrealised (position_side : Side) (price_entry_average : Rat) (quantity_abs : Rat) (quantity_abs_max : Rat) (fees_enter : Rat) (price : Rat) : Rat :=
+@[gen_position_sm] def calculate_pnl_unrealised (position_side : Side) (price_entry_average : Rat) (quantity_abs : Rat) (quantity_abs_max : Rat) (fees_enter : Rat) (price : Rat) : Rat :=
   let approx_exit_fees : Rat := (approximate_remaining_exit_fees quantity_abs quantity_abs_max fees_enter)
   let value_quote_current : Rat := (quantity_abs * price)
   let value_quote_entry : Rat := (quantity_abs * price_entry_average)
@@ -463,7 +478,7 @@ def calculate_pnl_unrealised (position_side : Side) (price_entry_average : Rat) 
       ((value_quote_entry - value_quote_current) - approx_exit_fees))
 
 /-- generated from `fn calculate_pnl_realised` (barter/src/engine/state/position.rs:527) -/
-def calculate_pnl_realised (position_side : Side) (price_entry_average : Rat) (closed_quantity : Rat) (closed_price : Rat) (closed_fee : Rat) : Rat :=
+@[gen_position_sm] def calculate_pnl_realised (position_side : Side) (price_entry_average : Rat) (closed_quantity : Rat) (closed_price : Rat) (closed_fee : Rat) : Rat :=
   let close_quantity : Rat := (Decimal.abs closed_quantity)
   let value_quote_closed : Rat := (close_quantity * closed_price)
   let value_quote_entry : Rat := (close_quantity * price_entry_average)
@@ -504,32 +519,32 @@ structure PositionExited (AssetKey : Type) (InstrumentKey : Type) where
   deriving DecidableEq, Repr
 
 /-- generated from `impl From for Position :: fn from` (barter/src/engine/state/position.rs:380) -/
-def Position.«from» {InstrumentKey : Type} [DecidableEq InstrumentKey] (trade : Trade QuoteAsset InstrumentKey) : Position QuoteAsset InstrumentKey :=
+@[gen_position_sm] def Position.«from» {InstrumentKey : Type} [DecidableEq InstrumentKey] (trade : Trade QuoteAsset InstrumentKey) : Position QuoteAsset InstrumentKey :=
   let trades : List TradeId := []
   let trades : List TradeId := (trades ++ [trade.id])
   { instrument := trade.instrument, side := trade.side, price_entry_average := trade.price, quantity_abs := (Decimal.abs trade.quantity), quantity_abs_max := (Decimal.abs trade.quantity), pnl_unrealised := 0, pnl_realised := (-trade.fees.fees), fees_enter := trade.fees, fees_exit := (AssetFees.default), time_enter := trade.time_exchange, time_exchange_update := trade.time_exchange, trades := trades : Position QuoteAsset InstrumentKey }
 
 /-- generated from `impl From for PositionExited :: fn from` (barter/src/engine/state/position.rs:447) -/
-def PositionExited.«from» {AssetKey : Type} [DecidableEq AssetKey] {InstrumentKey : Type} [DecidableEq InstrumentKey] (value : Position AssetKey InstrumentKey) : PositionExited AssetKey InstrumentKey :=
+@[gen_position_sm] def PositionExited.«from» {AssetKey : Type} [DecidableEq AssetKey] {InstrumentKey : Type} [DecidableEq InstrumentKey] (value : Position AssetKey InstrumentKey) : PositionExited AssetKey InstrumentKey :=
   { instrument := value.instrument, side := value.side, price_entry_average := value.price_entry_average, quantity_abs_max := value.quantity_abs_max, pnl_realised := value.pnl_realised, fees_enter := value.fees_enter, fees_exit := value.fees_exit, time_enter := value.time_enter, time_exit := value.time_exchange_update, trades := value.trades : PositionExited AssetKey InstrumentKey }
 
 /-- generated from `impl Position :: fn update_price_entry_average` (barter/src/engine/state/position.rs:333) -/
-def Position.update_price_entry_average {InstrumentKey : Type} [DecidableEq InstrumentKey] (self : Position QuoteAsset InstrumentKey) (trade : Trade QuoteAsset InstrumentKey) : Position QuoteAsset InstrumentKey :=
+@[gen_position_sm] def Position.update_price_entry_average {InstrumentKey : Type} [DecidableEq InstrumentKey] (self : Position QuoteAsset InstrumentKey) (trade : Trade QuoteAsset InstrumentKey) : Position QuoteAsset InstrumentKey :=
   let self : Position QuoteAsset InstrumentKey := { self with price_entry_average := (calculate_price_entry_average self.price_entry_average self.quantity_abs trade.price (Decimal.abs trade.quantity)) }
   self
 
 /-- generated from `impl Position :: fn update_pnl_unrealised` (barter/src/engine/state/position.rs:347) -/
-def Position.update_pnl_unrealised {InstrumentKey : Type} [DecidableEq InstrumentKey] (self : Position QuoteAsset InstrumentKey) (price : Rat) : Position QuoteAsset InstrumentKey :=
+@[gen_position_sm] def Position.update_pnl_unrealised {InstrumentKey : Type} [DecidableEq InstrumentKey] (self : Position QuoteAsset InstrumentKey) (price : Rat) : Position QuoteAsset InstrumentKey :=
   let self : Position QuoteAsset InstrumentKey := { self with pnl_unrealised := (calculate_pnl_unrealised self.side self.price_entry_average self.quantity_abs self.quantity_abs_max self.fees_enter.fees price) }
   self
 
 /-- generated from `impl Position :: fn update_pnl_realised` (barter/src/engine/state/position.rs:359) -/
-def Position.update_pnl_realised {InstrumentKey : Type} [DecidableEq InstrumentKey] (self : Position QuoteAsset InstrumentKey) (closed_quantity : Rat) (closed_price : Rat) (closed_fee : Rat) : Position QuoteAsset InstrumentKey :=
+@[gen_position_sm] def Position.update_pnl_realised {InstrumentKey : Type} [DecidableEq InstrumentKey] (self : Position QuoteAsset InstrumentKey) (closed_quantity : Rat) (closed_price : Rat) (closed_fee : Rat) : Position QuoteAsset InstrumentKey :=
   let self : Position QuoteAsset InstrumentKey := { self with pnl_realised := (self.pnl_realised + (calculate_pnl_realised self.side self.price_entry_average closed_quantity closed_price closed_fee)) }
   self
 
 /-- generated from `impl Position :: fn update_from_trade` (barter/src/engine/state/position.rs:227) -/
-def Position.update_from_trade {InstrumentKey : Type} [DecidableEq InstrumentKey] (self : Position QuoteAsset InstrumentKey) (trade : Trade QuoteAsset InstrumentKey) : (Option (Position QuoteAsset InstrumentKey)) × (Option (PositionExited QuoteAsset InstrumentKey)) :=
+@[gen_position_sm] def Position.update_from_trade {InstrumentKey : Type} [DecidableEq InstrumentKey] (self : Position QuoteAsset InstrumentKey) (trade : Trade QuoteAsset InstrumentKey) : (Option (Position QuoteAsset InstrumentKey)) × (Option (PositionExited QuoteAsset InstrumentKey)) :=
   (if (self.instrument ≠ trade.instrument) then
     ((some self), none)
   else
@@ -587,7 +602,7 @@ structure PositionManager (InstrumentKey : Type) where
   deriving DecidableEq, Repr
 
 /-- generated from `impl PositionManager :: fn update_from_trade` (barter/src/engine/state/position.rs:32) -/
-def PositionManager.update_from_trade {InstrumentKey : Type} [DecidableEq InstrumentKey] (self : PositionManager InstrumentKey) (trade : Trade QuoteAsset InstrumentKey) : (PositionManager InstrumentKey) × Option (PositionExited QuoteAsset InstrumentKey) :=
+@[gen_position_sm] def PositionManager.update_from_trade {InstrumentKey : Type} [DecidableEq InstrumentKey] (self : PositionManager InstrumentKey) (trade : Trade QuoteAsset InstrumentKey) : (PositionManager InstrumentKey) × Option (PositionExited QuoteAsset InstrumentKey) :=
   let taken_1 : Option (Position QuoteAsset InstrumentKey) := self.current
   let self : PositionManager InstrumentKey := { self with current := none }
   (match (match taken_1 with
@@ -608,7 +623,7 @@ inductive Health where
   deriving DecidableEq, Repr
 
 /-- generated from `impl Default for Health :: fn default` (barter/src/engine/state/connectivity/mod.rs:187) -/
-def Health.default  : Health :=
+@[gen_connectivity] def Health.default  : Health :=
   Health.Reconnecting
 
 /-- generated from `struct ConnectivityState` (barter/src/engine/state/connectivity/mod.rs:171) -/
@@ -618,7 +633,7 @@ structure ConnectivityState where
   deriving DecidableEq, Repr
 
 /-- generated from `impl ConnectivityState :: fn all_healthy` (barter/src/engine/state/connectivity/mod.rs:181) -/
-def ConnectivityState.all_healthy (self : ConnectivityState) : Bool :=
+@[gen_connectivity] def ConnectivityState.all_healthy (self : ConnectivityState) : Bool :=
   (decide ((self.market_data = Health.Healthy) ∧ (self.account = Health.Healthy)))
 
 end BarterModel.Generated.Machines
